@@ -124,6 +124,20 @@ Definition lmem (l : L) (ls : list L) : bool := existsb (leqb l) ls.
 
 (* ------------------------------------------------------------------ DynamicConstraintsEncoder *)
 
+(* new_solver_var: one n_vars() call, then the allocation above it *)
+Definition new_solver_var (vars : list vtype) (t : vtype) : M (list vtype * nat) :=
+  nv <- n_vars ;; ret (alloc_var vars nv t).
+(* the variables of a new argument: its own and, for CO / PR, the attacker disjunction variable,
+   which the clause generators address as "1 + the argument's variable" *)
+Definition alloc_arg_vars (sm : dsem) (vars : list vtype) (arg_id : nat) : M (list vtype * nat) :=
+  r1 <- new_solver_var vars (VArg arg_id) ;;
+  match sm with
+  | DST => ret r1
+  | _ =>
+      r2 <- new_solver_var (fst r1) (VDisj arg_id) ;;
+      add_clause [znlit (snd r1); znlit (snd r2)] ;;; ret (fst r2, snd r1)
+  end.
+
 Definition remove_selector (e : denc) (s : nat) : M denc :=
   if Nat.ltb s (length (e_vars e)) then
     add_clause [znlit s] ;;;
@@ -145,8 +159,8 @@ Definition update_attacks_to (af : fw L) (e : denc) (to_id : nat) : M denc :=
                   ret (enc_with e' (e_a2v e') (set_nth to_id None (e_a2s e')) (e_vars e') (e_assum e'))
               | None => ret e
               end ;;
-        nv <- n_vars ;;
-        let '(vars, sv) := alloc_var (e_vars e1) nv (VSel to_id) in
+        r <- new_solver_var (e_vars e1) (VSel to_id) ;;
+        let '(vars, sv) := r in
         let sl := zlit sv in
         let e2 := enc_with e1 (e_a2v e1) (set_nth to_id (Some sv) (e_a2s e1)) vars (e_assum e1 ++ [sl]) in
         if negb (has_argument_with_id L af to_id) then panic
@@ -171,16 +185,8 @@ Definition enc_new_argument (af : fw L) (e : denc) (l : L) : M (fw L * denc) :=
       match max_argument_id L af' with
       | None => panic
       | Some arg_id =>
-          nv <- n_vars ;;
-          let '(vars1, v) := alloc_var (e_vars e) nv (VArg arg_id) in
-          vars2 <- match e_sem e with
-                   | DST => ret vars1
-                   | _ =>
-                       nv2 <- n_vars ;;
-                       let '(vars2, d) := alloc_var vars1 nv2 (VDisj arg_id) in
-                       add_clause [znlit v; znlit d] ;;; ret vars2
-                   end ;;
-          let e3 := enc_with e (e_a2v e ++ [Some v]) (e_a2s e ++ [None]) vars2 (e_assum e) in
+          r <- alloc_arg_vars (e_sem e) (e_vars e) arg_id ;;
+          let e3 := enc_with e (e_a2v e ++ [Some (snd r)]) (e_a2s e ++ [None]) (fst r) (e_assum e) in
           e4 <- update_attacks_to af' e3 arg_id ;;
           ret (af', e4)
       end
